@@ -31,8 +31,8 @@ META = {
     "assumptions": ["the service client raises what a conforming boto client raises (.response with Error/ResponseMetadata)",
                     "classification table is the documented one: 4xx (not 429, not 'Invalid Checkpoint Token') => raise for retry; 429/5xx/invalid token => FAILED"],
     "budget": {
-        "quick": {"shards": 4, "programs": 36, "max_points": 12, "random_cases": 60, "window_cases": 150, "min_nontrivial": 25},
-        "thorough": {"shards": 16, "programs": 250, "max_points": 40, "random_cases": 1200, "window_cases": 3000, "min_nontrivial": 900},
+        "quick": {"shards": 4, "programs": 36, "max_points": 12, "random_cases": 60, "window_cases": 150, "sweep_limit": 600, "min_nontrivial": 25},
+        "thorough": {"shards": 16, "programs": 250, "max_points": 40, "random_cases": 1200, "window_cases": 3000, "sweep_limit": 5000, "min_nontrivial": 900},
     },
 }
 
@@ -232,4 +232,27 @@ def _window_stage(ctx):
                      extra_monitors=(mon_c06,), seed_offset=17)
 
 
-install(globals(), props=("C06",), cases=cases, nontrivial=nontrivial, classes=classes, extra_monitors=(mon_c06,), stages=(_enumerate, _window_stage))
+def _sweep_stage(ctx):
+    """One long preemption at every executed source line of state.py/threading.py/executor.py while one backend call fails."""
+    from .c03 import _S
+
+    bases = [
+        ("step; fault 0", [_S(1)], 0, ["state", "threading"]),
+        ("step, step(at-most-once); fault 1", [_S(1), _S(2, sem="most")], 1, ["state", "threading"]),
+        ("parallel{step,step}; fault 0", [{"op": "parallel", "branches": [[_S(1)], [_S(2)]], "cfg": {"completion": {"min": None, "tol": 2, "pct": None}}}], 0, ["state", "executor"]),
+        ("parallel{step,step}; fault 1", [{"op": "parallel", "branches": [[_S(1)], [_S(2)]], "cfg": {"completion": {"min": None, "tol": 2, "pct": None}}}], 1, ["threading", "executor"]),
+        ("parallel{wait(1)+step | slow step}; fault 2", [{"op": "parallel", "branches": [[{"op": "wait", "secs": 1}, _S(1)], [_S(2, sleep=2.5)]],
+                                                           "cfg": {"completion": {"min": None, "tol": 2, "pct": None}}}], 2, ["executor", "state"]),
+        ("child{step}, wait; fault 1", [{"op": "child", "body": [_S(1)]}, {"op": "wait", "secs": 1}], 1, ["state", "threading"]),
+    ]
+    for i, (label, body, api, line) in enumerate(bases):
+        if ctx.nshards > 1 and i % ctx.nshards != ctx.shard % ctx.nshards:
+            continue
+        cls = sorted(FAULT_CLASSES)[i % len(FAULT_CLASSES)]
+        base = {"prog": {"body": body}, "backend": {"response": "delta"}, "plan": {"crashes": [], "faults": [{"inv": 0, "api": api, "class": cls, "when": "before"}]},
+                "line": line, "max_raises": 1}
+        WC.line_preempt_sweep(ctx, base, PROPS, nontrivial=nontrivial, classes=lambda r, c: ["one-long-preemption-at-a-line"] + classes(r, c), extra_monitors=(mon_c06,),
+                              limit=ctx.budget.get("sweep_limit", 700), label=f"one long preemption per line of {'/'.join(line)}: {label} ({cls})")
+
+
+install(globals(), props=("C06",), cases=cases, nontrivial=nontrivial, classes=classes, extra_monitors=(mon_c06,), stages=(_enumerate, _window_stage, _sweep_stage))
